@@ -8,6 +8,7 @@
 
 __all__ = """
 SHOW_INFORMATIONAL_MESSAGES
+check_workers_succeeded
 resolve_parallelism
 """.split()
 
@@ -71,3 +72,29 @@ def resolve_parallelism(parallel):
         return parallel
 
     return 1
+
+
+def check_workers_succeeded(workers, what):
+    """Raise an exception if any worker process did not exit cleanly.
+
+    Parameters
+    ----------
+    workers : iterable of :class:`multiprocessing.Process`
+        Worker processes that have been joined (or terminated).
+    what : str
+        A short description of the parallelized operation, for the error
+        message.
+
+    Notes
+    -----
+    An exception raised inside a worker process is only printed by that
+    process; it does not propagate to the parent. Without this check, a failure
+    while processing some item would therefore go unnoticed by the caller.
+    """
+    n_failed = sum(1 for w in workers if w.exitcode)
+
+    if n_failed:
+        raise Exception(
+            f"{n_failed} worker process(es) failed during {what}; "
+            "their error messages should have been printed above"
+        )
